@@ -92,6 +92,21 @@ class SymMode(ModeBase):
     def truth_value(self, c):
         """fork on a condition (harness-level case split)"""
         return self.eng.branch(c)
+    def pick_min(self, cands):
+        """the candidate that the path condition forces to be the minimum (model-guided guess, then one solver proof); None if undecided"""
+        from . import sc, ir
+        import z3
+        eng = self.eng
+        if len(cands) == 1: return cands[0]
+        if eng.model_env is None:
+            if eng.check() != z3.sat: return None
+            eng._refresh_model()
+        try: vals = [float(sc.evaluate(c, eng.model_env)) for c in cands]
+        except Exception: return None
+        k = min(range(len(cands)), key=lambda t: vals[t])
+        cond = sc.land(*[sc.le(cands[k], c) for t, c in enumerate(cands) if t != k])
+        if cond is True or (cond is not False and eng.check(ir.lnot(cond)) == z3.unsat): return cands[k]
+        return None
     def simplify(self, x):
         from .ir import T
         return self.eng.simplify(x) if isinstance(x, T) else x
@@ -129,6 +144,9 @@ class ConcMode(ModeBase):
     def assume(self, cond):
         if not bool(cond): raise AssumptionFailed('assumption does not hold for the replayed input')
     def int_value(self, x): return int(x)
+    def pick_min(self, cands):
+        vals = [float(c) for c in cands]
+        return cands[min(range(len(cands)), key=lambda t: vals[t])]
     def simplify(self, x): return x
     def truth_value(self, c): return bool(c)
     def close(self, a, b, tol=Fraction(1, 10**9)):
